@@ -43,7 +43,8 @@ ASSUMPTION stated for the theorems: `rnd 0 = 0`, `rnd (rnd x) = rnd x`, `rnd` fi
 `rnd` on the integers that are converted is part of the guards (it holds for |n| ≤ 2^53).
 The definitions named `…Old` mirror the code BEFORE the C02 repairs (tolerance-based float equality, wrapped
 literal in the signed branch, ConvertToSameType overwriting a value with a failed conversion, numeric strings that
-are never numbers, back-fill records that never satisfy `!=` against a string / bool literal) and exist only for
+are never numbers, back-fill records that never satisfy `!=` against a string / bool literal, numbers and booleans
+that never satisfy `!=` against a string literal) and exist only for
 the recorded counterexample theorems.
 Numeric text: `numOfStr?` is the grammar of utils.FastParseFloat, `[+-]?(digits[.digits*]|.digits)([eE][+-]?digits)?`;
 the correspondence suite keeps mantissas ≤ 40 digits and |exponent| ≤ 40 (no float64 overflow inside the domain).
@@ -392,13 +393,12 @@ def fopOnString (ci : Bool) (rec : Bytes) (q : Lit) (op : Op) : Res Bool :=
 
 /-- `fopOnBool` -/
 def fopOnBool (rec : Bytes) (q : Lit) (op : Op) : Res Bool :=
-  match rec with
-  | _ :: b :: _ =>
-    match op with
-    | .eq => .ok (decide (b = q.boolv))
-    | .ne => .ok (!decide (b = q.boolv))
-    | _ => .err "invalid-operator"
-  | _ => .panic
+  -- the operator is looked at first: an order operator is an error before `rec[1]` is touched (a record cut down to
+  -- its type byte panics only under = / !=)
+  match op with
+  | .eq => match rec with | _ :: b :: _ => .ok (decide (b = q.boolv)) | _ => .panic
+  | .ne => match rec with | _ :: b :: _ => .ok (!decide (b = q.boolv)) | _ => .panic
+  | _ => .err "invalid-operator"
 
 /-- string / bool literal against an event that does not have the column (`len(rec) == 0`, or a back-fill record) -/
 def absentCmp (op : Op) : Res Bool :=
@@ -411,7 +411,8 @@ def implCmp (rnd : Rat → Rat) (ci : Bool) (rec : Bytes) (op : Op) (q : Lit) : 
     match rec with
     | [] => absentCmp op
     | t :: _ => if t = tBackfill then absentCmp op          -- repair c02-1
-                else if t ≠ tStr then .ok false else fopOnString ci rec q op
+                else if t ≠ tStr then .ok (op == .ne)       -- repair c02-5: a value that is not a string is not equal to the string (was: no match, `!=` included)
+                else fopOnString ci rec q op
   | .bool =>
     match rec with
     | [] => absentCmp op
@@ -420,6 +421,14 @@ def implCmp (rnd : Rat → Rat) (ci : Bool) (rec : Bytes) (op : Op) (q : Lit) : 
   | .signed | .unsigned | .float => fopOnNumber rnd rec q op
   | .backfill => .ok false
   | .other => .err "could-not-complete-op"
+
+/-- string literals BEFORE repair c02-5: a record that is not a string (a number, a boolean) matched NOTHING, not even
+`!=` — while the same number stored as text (a block column holding numbers and text is stored as text) satisfies
+`!=` against every other string -/
+def implCmpNonStringOld (rnd : Rat → Rat) (ci : Bool) (rec : Bytes) (op : Op) (q : Lit) : Res Bool :=
+  match q.dtype, rec with
+  | .str, t :: _ => if t = tBackfill then absentCmp op else if t ≠ tStr then .ok false else fopOnString ci rec q op
+  | _, _ => implCmp rnd ci rec op q
 
 /-- string / bool literals BEFORE repair c02-1: a back-fill record is "not a string" / "not a boolean": no match,
 `!=` included — while the empty record of a block without the column satisfies `!=` -/
